@@ -141,3 +141,19 @@ Proof.
     destruct i as [|i]; [|destruct i; vm_compute in Hx; discriminate]. vm_compute in Hx. inversion Hx; subst. vm_compute in Hn. exact Hn.
   - split; [vm_compute; intros []|]. intros E. discriminate E.
 Qed.
+
+(* several neighbours: the decision of the table cleanup is invariant under permutation of the order in which the answers
+   arrive; any claim, failure or missing answer among them keeps the file, and the file goes only when every answer was a
+   clean "not needed" *)
+Theorem neighbour_answer_order_irrelevant : forall w x o l l',
+  Permutation.Permutation l l' ->
+  cleanup_deletes w (mkW (x_core x) (x_dir x) (x_own x) (NbSeq l) (x_next x) (x_ckpts x) (x_pending x) (x_flush x) (x_flushq x) (x_comp x) (x_compq x) (x_cktasks x) (x_objs x) (x_state x)) o =
+  cleanup_deletes w (mkW (x_core x) (x_dir x) (x_own x) (NbSeq l') (x_next x) (x_ckpts x) (x_pending x) (x_flush x) (x_flushq x) (x_comp x) (x_compq x) (x_cktasks x) (x_objs x) (x_state x)) o.
+Proof. exact answer_order_irrelevant. Qed.
+Print Assumptions neighbour_answer_order_irrelevant.
+
+Theorem any_claim_or_failure_means_keep : forall w x o lo hi l a,
+  o_fromdoc o = true -> x_own x = OwnRange lo hi -> x_nb x = NbSeq l -> In a l ->
+  (a = AClaim \/ a = AErr \/ a = ANever) -> cleanup_deletes w x o = false.
+Proof. exact any_claim_or_failure_keeps. Qed.
+Print Assumptions any_claim_or_failure_means_keep.
